@@ -250,6 +250,7 @@ func (m *Model) applyWrite(off uint32, w Write, noop bool) (Val, bool) {
 	if w.Merge {
 		cur, has := cells[off]
 		nv := mergeVal(c.Kind, cur, has, w.V)
+		nv.Arith = c.Kind.Float()
 		cells[off] = nv
 		return nv, true
 	}
